@@ -6,6 +6,14 @@
 //! Sigma2, Sigma3, Sigma2Resume, final status) consistently or once, and drops / duplicates /
 //! delays / reorders datagrams. Oracle: session-table invariants against generator ground
 //! truth, evaluated from what the stacks consumed.
+//!
+//! Sub-check `case-impostor`: initiators that address the device's fabric without being a member.
+//!
+//! Sub-check `case-reissue`: histories of 2-5 handshakes between one controller and one device
+//! whose NOCs are re-issued (other CATs, other node id) and whose resumption records are dropped
+//! or kept in between. Oracle: a session of a full handshake carries the node id and CATs of the
+//! NOC just presented; a resumed session those of the latest full handshake that end completed
+//! with that peer node id - never superseded ones.
 
 use std::cell::RefCell;
 use std::collections::HashMap;
@@ -696,11 +704,590 @@ fn check_impostor(case: &ImpostorCase) -> Case {
     }
 }
 
+// ------------------------------------------------------------------ re-issued credentials
+//
+// Sub-check `case-reissue`: a history of 2-5 CASE handshakes between one controller and one
+// device of one fabric. Between the handshakes the harness re-issues the NOC of either end (other
+// CATs, optionally another node id of the same fabric; `Fabrics::update`, what `UpdateNOC` ends
+// up calling) and drops or keeps the resumption records of either end. Nothing is mutated on the
+// wire; each handshake runs under a light loss plan.
+//
+// Oracle (written from the statement, it does not predict whether a handshake resumes): every
+// session that appears is classified by the message that carried its responder session id
+// (Sigma2 = full handshake, Sigma2Resume = resumption).
+//  * full handshake: the session is bound to the node id and CATs of the NOC the peer holds
+//    right now (that is the NOC it presented);
+//  * resumption: the session is bound to the node id and CATs the peer presented in the LATEST
+//    full handshake this end completed with that peer node id - the resumption state of a
+//    (fabric, node id) is superseded by every later full handshake of that (fabric, node id).
+
+const CTRL_NODES: [u64; 3] = [0x1000, 0x1001, 0x1002];
+const DEV_NODES: [u64; 3] = [0x2000, 0x2001, 0x2002];
+/// virtual time between two handshakes: longer than any delay the loss plan can introduce, so
+/// that no datagram of a handshake is still in flight when the credentials change
+const QUIESCE: u64 = 12 * SEC;
+
+#[derive(Debug, Clone, Serialize, Deserialize)]
+pub enum CatEdit {
+    /// same CATs, fresh key and certificate only
+    Same,
+    /// add this CAT; if its identifier is present already, its version is replaced
+    Add(u32),
+    /// remove one CAT (selector)
+    Remove(u16),
+    /// give one CAT (selector) this version
+    Version(u16, u16),
+    /// no CATs at all
+    Clear,
+}
+
+#[derive(Debug, Clone, Serialize, Deserialize)]
+pub struct Reissue {
+    cats: CatEdit,
+    /// index into the node id pool of that end; `None` keeps the node id
+    node: Option<u8>,
+}
+
+#[derive(Debug, Clone, PartialEq, Eq, Serialize, Deserialize)]
+pub enum DropRec {
+    Keep,
+    /// `ResumableSessions::remove_by_peer` for the peer's current node id
+    Peer,
+    /// `ResumableSessions::reset`
+    All,
+}
+
+#[derive(Debug, Clone, Serialize, Deserialize)]
+pub struct Step {
+    ctrl_reissue: Option<Reissue>,
+    dev_reissue: Option<Reissue>,
+    drop_ctrl: DropRec,
+    drop_dev: DropRec,
+    /// the controller still addresses the node id the device had before its last change
+    stale_addr: bool,
+    plan: Plan,
+}
+
+#[derive(Debug, Clone, Serialize, Deserialize)]
+pub struct ReissueCase {
+    icac: bool,
+    ctrl_cats: Vec<u32>,
+    dev_cats: Vec<u32>,
+    steps: Vec<Step>,
+    sched: Option<u64>,
+    seed: u32,
+}
+
+fn cat_set() -> impl Strategy<Value = Vec<u32>> {
+    prop::collection::vec(cat(), 0..4).prop_map(|mut cats| {
+        cats.sort_by_key(|c| c >> 16);
+        cats.dedup_by_key(|c| *c >> 16);
+        cats.truncate(3);
+        cats
+    })
+}
+
+fn light_plan() -> impl Strategy<Value = Plan> {
+    (
+        prop::collection::vec(adv::act(), 0..4),
+        prop::collection::vec(adv::act(), 0..4),
+        prop_oneof![14 => Just(None), 1 => (0u16..10).prop_map(Some)],
+        prop_oneof![14 => Just(None), 1 => (0u16..10).prop_map(Some)],
+    )
+        .prop_map(|(a, b, ha, hb)| Plan {
+            dir: [a, b],
+            blackhole_from: [ha, hb],
+        })
+}
+
+fn reissue_strategy() -> impl Strategy<Value = ReissueCase> {
+    let edit = || {
+        prop_oneof![
+            1 => Just(CatEdit::Same),
+            3 => cat().prop_map(CatEdit::Add),
+            2 => any::<u16>().prop_map(CatEdit::Remove),
+            2 => (any::<u16>(), 1u16..4).prop_map(|(s, v)| CatEdit::Version(s, v)),
+            1 => Just(CatEdit::Clear),
+        ]
+    };
+    let reissue = move || {
+        (edit(), prop_oneof![3 => Just(None), 1 => (0u8..3).prop_map(Some)])
+            .prop_map(|(cats, node)| Reissue { cats, node })
+    };
+    let drop_rec = |keep: u32| {
+        prop_oneof![keep => Just(DropRec::Keep), 2 => Just(DropRec::Peer), 1 => Just(DropRec::All)]
+    };
+    let step = (
+        prop_oneof![5 => Just(None), 4 => reissue().prop_map(Some)],
+        prop_oneof![7 => Just(None), 3 => reissue().prop_map(Some)],
+        drop_rec(6),
+        drop_rec(9),
+        prop::bool::weighted(0.06),
+        prop_oneof![3 => Just(Plan::default()), 2 => light_plan()],
+    )
+        .prop_map(|(ctrl_reissue, dev_reissue, drop_ctrl, drop_dev, stale_addr, plan)| Step {
+            ctrl_reissue,
+            dev_reissue,
+            drop_ctrl,
+            drop_dev,
+            stale_addr,
+            plan,
+        });
+    (
+        any::<bool>(),
+        cat_set(),
+        cat_set(),
+        prop::collection::vec(step, 2..6),
+        prop_oneof![1 => Just(None), 2 => any::<u64>().prop_map(Some)],
+        any::<u32>(),
+    )
+        .prop_map(|(icac, ctrl_cats, dev_cats, steps, sched, seed)| ReissueCase {
+            icac,
+            ctrl_cats,
+            dev_cats,
+            steps,
+            sched,
+            seed,
+        })
+}
+
+/// Apply a CAT edit; the result never carries an identifier twice and never more than 3 CATs.
+fn apply_cat_edit(cats: &mut Vec<u32>, edit: &CatEdit) {
+    match edit {
+        CatEdit::Same => {}
+        CatEdit::Add(c) => {
+            if let Some(old) = cats.iter_mut().find(|o| **o >> 16 == *c >> 16) {
+                *old = *c;
+            } else if cats.len() < 3 {
+                cats.push(*c);
+            } else {
+                cats[0] = *c;
+            }
+        }
+        CatEdit::Remove(sel) => {
+            if !cats.is_empty() {
+                cats.remove(vh::util::pick(*sel, cats.len()));
+            }
+        }
+        CatEdit::Version(sel, ver) => {
+            if !cats.is_empty() {
+                let i = vh::util::pick(*sel, cats.len());
+                cats[i] = (cats[i] & 0xffff_0000) | (*ver as u32 & 0xffff).max(1);
+            }
+        }
+        CatEdit::Clear => cats.clear(),
+    }
+}
+
+/// How two CAT sets differ (labels).
+fn cat_diff(old: &[u32], new: &[u32]) -> Vec<&'static str> {
+    let mut out = Vec::new();
+    if new.is_empty() && !old.is_empty() {
+        out.push("cats-cleared");
+    }
+    if new.iter().any(|n| !old.iter().any(|o| o >> 16 == n >> 16)) {
+        out.push("cat-added");
+    }
+    if old.iter().any(|o| !new.iter().any(|n| o >> 16 == n >> 16)) {
+        out.push("cat-removed");
+    }
+    if new.iter().any(|n| old.iter().any(|o| o >> 16 == n >> 16 && o != n)) {
+        out.push("cat-version");
+    }
+    out
+}
+
+#[derive(Debug, Clone)]
+struct Cred {
+    node: u64,
+    cats: Vec<u32>,
+}
+
+/// What the device answered with since datagram `from`: responder session ids carried by Sigma2
+/// and by Sigma2Resume messages, and whether a Sigma1 offered resumption.
+fn responder_answers(net: &Net, from: usize) -> (Vec<u16>, Vec<u16>, bool) {
+    let mut full = Vec::new();
+    let mut resumed = Vec::new();
+    let mut offered = false;
+    net.with_tap(|t| {
+        for s in t.sent.iter().skip(from) {
+            let Some((w, _)) = mutate::payload_offset(&s.bytes) else { continue };
+            if w.proto_id != PROTO_ID_SECURE_CHANNEL {
+                continue;
+            }
+            let el = rs_matter::tlv::TLVElement::new(w.payload.as_slice());
+            let Ok(seq) = el.structure() else { continue };
+            if s.src == 0 && w.opcode == OP_SIGMA2 {
+                if let Ok(id) = seq.ctx(2).and_then(|e| e.u16()) {
+                    full.push(id);
+                }
+            } else if s.src == 0 && w.opcode == OP_SIGMA2R {
+                if let Ok(id) = seq.ctx(3).and_then(|e| e.u16()) {
+                    resumed.push(id);
+                }
+            } else if s.src == 1 && w.opcode == OP_SIGMA1 && seq.ctx(6).is_ok() {
+                offered = true;
+            }
+        }
+    });
+    (full, resumed, offered)
+}
+
+fn check_reissue(case: &ReissueCase) -> Case {
+    use rs_matter::crypto::CanonPkcSecretKeyRef;
+    use std::collections::BTreeMap;
+
+    vh::sim::reset_universe();
+    let net = Net::new(2);
+    let cd = mk_crypto(case.seed);
+    let cc = mk_crypto(case.seed.wrapping_mul(0x9E37_79B9).wrapping_add(99));
+    let cgen = mk_crypto(case.seed ^ 0x0BAD_5EED);
+    let device = new_matter(5540);
+    let ctrl = new_matter(5541);
+
+    let mut cur_c = Cred { node: CTRL_NODES[0], cats: case.ctrl_cats.clone() };
+    let mut cur_d = Cred { node: DEV_NODES[0], cats: case.dev_cats.clone() };
+    let ca = match Ca::new(&cgen, 0x100, case.icac, 1) {
+        Ok(c) => c,
+        Err(e) => return Case::inconclusive(format!("CA: {e:?}")),
+    };
+    let setup = (|| -> Result<(core::num::NonZeroU8, core::num::NonZeroU8), rs_matter::error::Error> {
+        let dm = new_member(&cgen, &ca, cur_d.node, &cur_d.cats)?;
+        let dev_idx = install(&device, &cd, &ca, &dm, CTRL_NODES[0])?;
+        let cm = new_member(&cgen, &ca, cur_c.node, &cur_c.cats)?;
+        let ctrl_idx = install(&ctrl, &cc, &ca, &cm, CTRL_NODES[0])?;
+        Ok((dev_idx, ctrl_idx))
+    })();
+    let (dev_idx, ctrl_idx) = match setup {
+        Ok(x) => x,
+        Err(e) => return Case::inconclusive(format!("fabric setup: {e:?}")),
+    };
+
+    // the loss plan of the handshake in progress, with the per-direction datagram counters
+    let plan_cell = std::rc::Rc::new(RefCell::new((Plan::default(), [0usize; 2])));
+    {
+        let plan_cell = plan_cell.clone();
+        net.set_adversary(move |s: &Sent| -> Actions {
+            let mut g = plan_cell.borrow_mut();
+            let d = if s.src == 0 { 0 } else { 1 };
+            let i = g.1[d];
+            g.1[d] += 1;
+            let mut act = g.0.dir[d].get(i).cloned().unwrap_or(Act::Deliver);
+            if let Some(from) = g.0.blackhole_from[d] {
+                if i >= from as usize {
+                    act = Act::Drop;
+                }
+            }
+            let bytes = s.bytes.clone();
+            match act {
+                Act::Deliver => vec![(0, bytes)],
+                Act::Drop => vec![],
+                Act::Dup(n) => (0..=n).map(|_| (0, bytes.clone())).collect(),
+                Act::Delay(ms) => vec![(ms as u64 * MS, bytes)],
+                Act::DupDelay(ms) => vec![(0, bytes.clone()), (ms as u64 * MS, bytes)],
+            }
+        });
+    }
+
+    // peer node id -> CATs presented in the latest full handshake this end completed with it
+    let mut dev_view: BTreeMap<u64, [u32; 3]> = BTreeMap::new();
+    let mut ctrl_view: BTreeMap<u64, [u32; 3]> = BTreeMap::new();
+    // the device's node id before its last actual change
+    let mut dev_prev_node: Option<u64> = None;
+    // pending "CATs changed" marks per end: 1 = re-issued, 2 = ... and a full handshake seen by
+    // the other end since
+    let mut ctrl_changed = 0u8;
+    let mut dev_changed = 0u8;
+    let mut undisturbed_so_far = true;
+    let mut nontrivial = false;
+    let mut labels: Vec<String> = Vec::new();
+    let result: RefCell<Option<bool>> = RefCell::new(None);
+
+    let sc = SecureChannel::new(&cd, &());
+    let responder = Responder::new("device", sc, &device, 0);
+    let mut ex = Exec::new(match case.sched {
+        None => Sched::Fifo,
+        Some(s) => Sched::Seeded(s),
+    });
+    ex.add_time_source(&net);
+    ex.spawn("dev.run", async {
+        let _ = device.run(&cd, net.end(0), net.end(0), NoNetwork).await;
+    });
+    ex.spawn("dev.resp", async {
+        let _ = responder.run::<3>().await;
+    });
+    ex.spawn("ctrl.run", async {
+        let _ = ctrl.run(&cc, net.end(1), net.end(1), NoNetwork).await;
+    });
+
+    for (k, step) in case.steps.iter().enumerate() {
+        // ------------------------------------------------------------ between the handshakes
+        if let Some(r) = &step.ctrl_reissue {
+            let old = cur_c.clone();
+            apply_cat_edit(&mut cur_c.cats, &r.cats);
+            if let Some(n) = r.node {
+                cur_c.node = CTRL_NODES[n as usize % CTRL_NODES.len()];
+            }
+            let done = new_member(&cgen, &ca, cur_c.node, &cur_c.cats).and_then(|m| {
+                ctrl.with_state(|st| {
+                    st.fabrics
+                        .update(&cc, ctrl_idx, CanonPkcSecretKeyRef::new(&m.key), &m.noc, ca.icac_bytes())
+                        .map(|_| ())
+                })
+            });
+            if let Err(e) = done {
+                return Case::inconclusive(format!("re-issue (controller): {e:?}"));
+            }
+            let diff = cat_diff(&old.cats, &cur_c.cats);
+            if !diff.is_empty() && k > 0 {
+                ctrl_changed = 1;
+            }
+            labels.extend(diff.iter().map(|d| format!("ctrl-{d}")));
+            if old.node != cur_c.node {
+                labels.push("ctrl-node-id-changed".into());
+            }
+        }
+        if let Some(r) = &step.dev_reissue {
+            let old = cur_d.clone();
+            apply_cat_edit(&mut cur_d.cats, &r.cats);
+            if let Some(n) = r.node {
+                cur_d.node = DEV_NODES[n as usize % DEV_NODES.len()];
+            }
+            let done = new_member(&cgen, &ca, cur_d.node, &cur_d.cats).and_then(|m| {
+                device.with_state(|st| {
+                    st.fabrics
+                        .update(&cd, dev_idx, CanonPkcSecretKeyRef::new(&m.key), &m.noc, ca.icac_bytes())
+                        .map(|_| ())
+                })
+            });
+            if let Err(e) = done {
+                return Case::inconclusive(format!("re-issue (device): {e:?}"));
+            }
+            let diff = cat_diff(&old.cats, &cur_d.cats);
+            if !diff.is_empty() && k > 0 {
+                dev_changed = 1;
+            }
+            labels.extend(diff.iter().map(|d| format!("dev-{d}")));
+            if old.node != cur_d.node {
+                dev_prev_node = Some(old.node);
+                labels.push("dev-node-id-changed".into());
+            }
+        }
+        match step.drop_ctrl {
+            DropRec::Keep => {}
+            DropRec::Peer => ctrl.with_state(|st| st.resumption.remove_by_peer(ctrl_idx, cur_d.node)),
+            DropRec::All => ctrl.with_state(|st| st.resumption.reset()),
+        }
+        match step.drop_dev {
+            DropRec::Keep => {}
+            DropRec::Peer => device.with_state(|st| st.resumption.remove_by_peer(dev_idx, cur_c.node)),
+            DropRec::All => device.with_state(|st| st.resumption.reset()),
+        }
+        let addressed = match (step.stale_addr, dev_prev_node) {
+            (true, Some(prev)) => {
+                labels.push("stale-address".into());
+                prev
+            }
+            _ => cur_d.node,
+        };
+
+        // ------------------------------------------------------------ the handshake
+        let before_dev: Vec<u32> = sessions(&device).iter().map(|s| s.id).collect();
+        let before_ctrl: Vec<u32> = sessions(&ctrl).iter().map(|s| s.id).collect();
+        let from = net.sent_count();
+        *plan_cell.borrow_mut() = (step.plan.clone(), [0; 2]);
+        let stop = do_handshake(&mut ex, "handshake", 60 * SEC, &ctrl, &cc, &result, ctrl_idx, addressed);
+        if stop == Stop::PollLimit {
+            return Case::inconclusive("poll watchdog");
+        }
+        *plan_cell.borrow_mut() = (Plan::default(), [0; 2]);
+        if ex.run_for(QUIESCE) == Stop::PollLimit {
+            return Case::inconclusive("poll watchdog (quiesce)");
+        }
+        if net.pending_count() != 0 {
+            return Case::inconclusive("datagrams still in flight after the quiet period");
+        }
+        let disturbed = !step.plan.is_noop();
+
+        // ------------------------------------------------------------ what happened
+        let (full_ids, resumed_ids, offered) = responder_answers(&net, from);
+        let new_dev: Vec<SessionSnapshot> = sessions(&device)
+            .into_iter()
+            .filter(|s| !before_dev.contains(&s.id) && matches!(s.mode, SessionMode::Case { .. }) && !s.reserved)
+            .collect();
+        let new_ctrl: Vec<SessionSnapshot> = sessions(&ctrl)
+            .into_iter()
+            .filter(|s| !before_ctrl.contains(&s.id) && matches!(s.mode, SessionMode::Case { .. }) && !s.reserved)
+            .collect();
+        if new_dev.len() > 1 || new_ctrl.len() > 1 {
+            return Case::fail(
+                "reissue:more-than-one-session",
+                format!("handshake {k} produced {} device and {} controller sessions", new_dev.len(), new_ctrl.len()),
+            );
+        }
+        let classify = |sess_id: u16| -> Option<bool> {
+            match (full_ids.contains(&sess_id), resumed_ids.contains(&sess_id)) {
+                (true, false) => Some(false),
+                (false, true) => Some(true),
+                _ => None,
+            }
+        };
+
+        // the device's view of the controller
+        for s in &new_dev {
+            let SessionMode::Case { fab_idx, cat_ids } = &s.mode else { continue };
+            let Some(resumed) = classify(s.local_sess_id) else {
+                return Case::inconclusive(format!("handshake {k}: device session {} matches no Sigma2 / Sigma2Resume", s.local_sess_id));
+            };
+            if *fab_idx != dev_idx {
+                return Case::fail(
+                    "reissue:device-session-wrong-fabric",
+                    format!("handshake {k}: device session bound to fabric {fab_idx}, the only fabric is {dev_idx}"),
+                );
+            }
+            if resumed {
+                let want = s.peer_nodeid.and_then(|n| dev_view.get(&n));
+                if want.map(|w| same_cats(w, cat_ids)) != Some(true) {
+                    return Case::fail(
+                        "reissue:device-resumed-session-superseded-attrs",
+                        format!(
+                            "handshake {k} was a resumption; the device session is bound to peer {:x?} with CATs {:x?}, but the latest full handshake the device completed with that node id presented CATs {:x?} (per node id: {:x?}); controller NOC now: node {:#x} CATs {:x?}",
+                            s.peer_nodeid, cat_ids, want, dev_view, cur_c.node, cur_c.cats
+                        ),
+                    );
+                }
+                labels.push("device-resumed".into());
+                if ctrl_changed >= 1 {
+                    nontrivial = true;
+                    labels.push("ctrl-reissue-then-resumption".into());
+                }
+                if ctrl_changed == 2 {
+                    labels.push("ctrl-reissue-full-resumption".into());
+                }
+            } else {
+                if s.peer_nodeid != Some(cur_c.node) || !same_cats(cat_ids, &cat_ids_of(&cur_c.cats)) || s.local_nodeid != cur_d.node {
+                    return Case::fail(
+                        "reissue:device-session-not-from-presented-noc",
+                        format!(
+                            "handshake {k} was a full handshake; the device session is bound to peer {:x?} with CATs {:x?} (local node {:#x}), the controller's NOC says node {:#x} CATs {:x?} (device node {:#x})",
+                            s.peer_nodeid, cat_ids, s.local_nodeid, cur_c.node, cur_c.cats, cur_d.node
+                        ),
+                    );
+                }
+                dev_view.insert(cur_c.node, cat_ids_of(&cur_c.cats));
+                labels.push("device-full".into());
+                if ctrl_changed == 1 {
+                    ctrl_changed = 2;
+                }
+            }
+        }
+        // the controller's view of the device
+        for s in &new_ctrl {
+            let SessionMode::Case { fab_idx, cat_ids } = &s.mode else { continue };
+            let Some(resumed) = classify(s.peer_sess_id) else {
+                return Case::inconclusive(format!("handshake {k}: controller session (peer id {}) matches no Sigma2 / Sigma2Resume", s.peer_sess_id));
+            };
+            if *fab_idx != ctrl_idx || s.peer_nodeid != Some(addressed) {
+                return Case::fail(
+                    "reissue:controller-session-wrong-peer",
+                    format!("handshake {k}: the controller asked for node {addressed:#x} on fabric {ctrl_idx}, its session is bound to peer {:x?} on fabric {fab_idx}", s.peer_nodeid),
+                );
+            }
+            if resumed {
+                let want = s.peer_nodeid.and_then(|n| ctrl_view.get(&n));
+                if want.map(|w| same_cats(w, cat_ids)) != Some(true) {
+                    return Case::fail(
+                        "reissue:controller-resumed-session-superseded-attrs",
+                        format!(
+                            "handshake {k} was a resumption; the controller session is bound to peer {:x?} with CATs {:x?}, but the latest full handshake the controller completed with that node id presented CATs {:x?} (per node id: {:x?}); device NOC now: node {:#x} CATs {:x?}",
+                            s.peer_nodeid, cat_ids, want, ctrl_view, cur_d.node, cur_d.cats
+                        ),
+                    );
+                }
+                labels.push("controller-resumed".into());
+                if dev_changed >= 1 {
+                    nontrivial = true;
+                    labels.push("dev-reissue-then-resumption".into());
+                }
+                if dev_changed == 2 {
+                    labels.push("dev-reissue-full-resumption".into());
+                }
+            } else {
+                if s.peer_nodeid != Some(cur_d.node) || !same_cats(cat_ids, &cat_ids_of(&cur_d.cats)) || s.local_nodeid != cur_c.node {
+                    return Case::fail(
+                        "reissue:controller-session-not-from-presented-noc",
+                        format!(
+                            "handshake {k} was a full handshake; the controller session is bound to peer {:x?} with CATs {:x?} (local node {:#x}), the device's NOC says node {:#x} CATs {:x?} (controller node {:#x})",
+                            s.peer_nodeid, cat_ids, s.local_nodeid, cur_d.node, cur_d.cats, cur_c.node
+                        ),
+                    );
+                }
+                ctrl_view.insert(cur_d.node, cat_ids_of(&cur_d.cats));
+                labels.push("controller-full".into());
+                if dev_changed == 1 {
+                    dev_changed = 2;
+                }
+            }
+        }
+        // I3: both ends hold a new session: same directional keys (nothing was tampered with, so
+        // they also reference each other)
+        if let (Some(d), Some(c)) = (new_dev.first(), new_ctrl.first()) {
+            if d.enc_key != c.dec_key || d.dec_key != c.enc_key {
+                return Case::fail(
+                    "reissue:keys-do-not-pair",
+                    format!("handshake {k}: both ends hold a new CASE session (ids {}/{}) with different directional keys", d.local_sess_id, c.local_sess_id),
+                );
+            }
+            if d.peer_sess_id != c.local_sess_id || c.peer_sess_id != d.local_sess_id {
+                return Case::fail(
+                    "reissue:session-ids-do-not-pair",
+                    format!("handshake {k}: device session {}->{} and controller session {}->{} do not reference each other", d.local_sess_id, d.peer_sess_id, c.local_sess_id, c.peer_sess_id),
+                );
+            }
+            labels.push("session-both-ends".into());
+        }
+        // A controller that reports success holds the session.
+        if *result.borrow() == Some(true) && new_ctrl.is_empty() {
+            return Case::fail(
+                "reissue:success-without-session",
+                format!("handshake {k}: CaseInitiator::perform returned Ok but the controller holds no new CASE session"),
+            );
+        }
+        // The very first handshake of an undisturbed history is a plain full handshake between
+        // two members of the fabric: it has to work, or everything below is vacuous.
+        if k == 0 && !disturbed && addressed == cur_d.node && (new_dev.is_empty() || new_ctrl.is_empty()) {
+            return Case::fail(
+                "reissue:honest-handshake-failed",
+                format!("an undisturbed first CASE handshake between two members of one fabric failed (controller {cur_c:x?}, device {cur_d:x?})"),
+            );
+        }
+        if offered {
+            labels.push("resumption-offered".into());
+            if !full_ids.is_empty() {
+                labels.push("fell-back-to-full".into());
+            }
+        }
+        if undisturbed_so_far && !disturbed && addressed == cur_d.node && (new_dev.is_empty() || new_ctrl.is_empty()) {
+            labels.push("undisturbed-without-session".into());
+        }
+        if disturbed {
+            undisturbed_so_far = false;
+            labels.push("lossy".into());
+        }
+        if new_dev.is_empty() != new_ctrl.is_empty() {
+            labels.push("session-one-end-only".into());
+        }
+    }
+    drop(ex);
+    labels.push(format!("handshakes-{}", case.steps.len()));
+    Case::pass(nontrivial).labels(labels)
+}
+
 fn main() {
     let mut run = Run::new(
         "C01",
         "exploration",
-        "honest endpoints, hostile path: a device with 1-3 fabrics (chains with/without ICAC, generated CATs, node ids optionally reused across fabrics) and a controller that is a member of some of them run a real CASE handshake (cold, or warm = after an honest handshake so that resumption is attempted) while one message kind (Sigma1, Sigma2, Sigma3, Sigma2Resume, final status) is mutated consistently or once (value bit flip, payload bit flip, truncation, extension, hostile curve point, replay of the recorded message of the earlier handshake) and datagrams are dropped/duplicated/delayed. Non-trivial: the responder answered Sigma1 and a value-level mutated message was the first copy consumed; distinct = distinct serialized case",
+        "honest endpoints, hostile path: a device with 1-3 fabrics (chains with/without ICAC, generated CATs, node ids optionally reused across fabrics) and a controller that is a member of some of them run a real CASE handshake (cold, or warm = after an honest handshake so that resumption is attempted) while one message kind (Sigma1, Sigma2, Sigma3, Sigma2Resume, final status) is mutated consistently or once (value bit flip, payload bit flip, truncation, extension, hostile curve point, replay of the recorded message of the earlier handshake) and datagrams are dropped/duplicated/delayed. Non-trivial: the responder answered Sigma1 and a value-level mutated message was the first copy consumed; distinct = distinct serialized case. case-reissue: histories of 2-5 handshakes of one controller and one device (one fabric, with/without ICAC, generated CATs at both ends) under light loss plans; before each handshake either end's NOC may be re-issued (CAT added / removed / version changed / all cleared / same, optionally another node id of the fabric), either end's resumption records dropped (for the peer / all) or kept, and the controller may address the device's previous node id. Non-trivial there: after the first handshake an end was re-issued with CATs that differ, and a later (or that very) handshake was a resumption at the other end",
     );
     run.assume("a mutation counts only if the mutated copy was the first copy of that message counter consumed by the receiving stack");
     run.assume("on the resumption path the session ids, destination id and public key of Sigma1 are not authenticated by the protocol; only initiator random, resumption id and MIC mutations are required to prevent a session there");
@@ -709,5 +1296,8 @@ fn main() {
     run.prop("case-hostile-path", n, case_strategy, check);
     let n = run.cases(1_500, 60_000);
     run.prop("case-impostor", n, impostor_strategy, check_impostor);
+    run.assume("case-reissue: a session is attributed to a full handshake or to a resumption by the message (Sigma2 / Sigma2Resume) that carried its responder session id; a resumption descends from the latest full handshake that end completed with the session's peer node id (a later full handshake of the same fabric and node id supersedes the resumption state); credentials change only while no handshake datagram is in flight (12 s quiet period, longer than any generated delay); re-issuing goes through Fabrics::update (as UpdateNOC does) and keeps existing sessions and resumption records");
+    let n = run.cases(3_000, 120_000);
+    run.prop("case-reissue", n, reissue_strategy, check_reissue);
     run.finish();
 }
